@@ -59,3 +59,8 @@ def run_sql(ctx):
         ctx, PID, "props/C07.v", make_work,
         "partial-state algebra of count/sum/min/max/bool_and/bool_or: combining per-partition states in any split and order gives the aggregate of the whole group (sum: that value or an overflow error, never another value); empty input values; one row per group, NULLs one group, every row in exactly one group; DISTINCT/UNION as duplicate elimination; DISTINCT aggregates; the open-addressing group table and the two-level partitioned scheme",
         "GROUP BY / HAVING / DISTINCT / UNION queries with count(*), count, sum, min, max, bool_and, bool_or and DISTINCT aggregates over 1-2 grouping columns with NULL keys, few and many groups (tables up to 400 rows), each under two partition counts from {1,2,3,8} and batch sizes {1,3,64,2048}; distinct = distinct (SQL text, config)")
+
+
+def replay(ctx, payload):
+    from . import sqlrun
+    return sqlrun.replay(ctx, payload)
